@@ -39,6 +39,9 @@ TFieldSets == {Rename(sq) : sq \in UNION {[1..n -> TField] : n \in 1..3}}
 
 (* vftable: indices of f1..f3 (None = implicit), table size *)
 QVftSets == {<<None, None, None, None>>, <<None, 2, None, None>>, <<1, None, 4, None>>, <<None, None, None, 5>>, <<0, 1, 2, 3>>}
+(* the thorough sweep over field lists keeps the other two definitions at one representative each *)
+T1VftSets == {<<None, 2, None, None>>}
+T1EnumSets == {<<None, 7, None>>}
 (* enum values of A..C as small integers or implicit *)
 QEnumSets == {<<None, None, None>>, <<3, None, None>>, <<None, 7, None>>, <<0 - 2, None, 5>>, <<9, 2, None>>}
 
